@@ -73,6 +73,24 @@ T = {
  'C18-4': ('parsemsg strips the raw line', 'last argument ending in whitespace'),
  'C19-3': ('add_buffer returns early unless the NEW read contains the delimiter or ends in } or ]', 'delimiter bytes spread over two or three reads with nothing following'),
  'C19-4': ('Protocol.error_handler loses channel="*"', 'callee root component with an explicit channel other than "*" and a remote handler that raises'),
+ 'C01-5': ('_do_prepare_unregister_complete no longer marks the detached component\'s own handler cache for refresh', 'component that was a root (warm cache), joined a tree, handler set changed there, detached again and dispatches as its own root'),
+ 'C01-6': ('_EventQueue.drainFrom re-appends the events but no longer empties the source queue', 'events queued on a detached component, register (drained), later unregister and tick it as a root / re-register'),
+ 'C02-5': ('fireEvent() resets event.stopped', 'a handler calls event.stop() and then fires the very same event object again inside the same invocation'),
+ 'C02-6': ('queue tie-break by time() instead of a sequence counter', '4+ equal-priority events queued within one clock reading (or a clock set back between two fires)'),
+ 'C03-5': ('reduce_time_left(): test and assignment of _time_left outside the manager lock', 'pending Timer + foreign fire() landing between the Timer\'s test and its assignment: the 0 is overwritten'),
+ 'C03-6': ('fall back helper components become per-process singletons (shared _continue flag)', 'two managers running in one process + three-thread interleaving: another manager\'s clear() wipes the set() meant for this one'),
+ 'C04-5': ('failure feedback hoisted out of the handler loop (once per event)', 'failure=True and two or more raising handlers in one dispatch'),
+ 'C04-6': ('refactored _suspendOn passes the wrong task in the ExceptionWrapper arm', 'handler catches the TimeoutError of a timed-out call()/wait() and then yields another call()/wait()'),
+ 'C05-5': ('waitingHandlers released only when the handler yields a non-None value after a caught timeout', 'tracked event whose handler catches a wait()/call() timeout and then does a bare yield'),
+ 'C05-6': ('_eventDone returns early for failed events with success=True (skips _effectDone)', 'tracked descendant with success=True whose handler raised'),
+ 'C06-5': ('waitEvent._on_done removes the countdown handler only if state.timeout > 0', 'timeout=N>=1 and the callee\'s done event dispatched exactly in the iteration where the countdown reaches 0'),
+ 'C06-6': ('processTask no longer sets event.failed when a task step raises', 'two generator handlers suspended on one event (success=True): one raises in a step, the other finishes later'),
+ 'C07-5': ('register() no longer assigns self.root before registerChild()', 'a second thread fires on the component between the drain and _updateRoot (outside the sequential histories C07 quantifies over)'),
+ 'C07-6': ('register() reads parent.root once into a local', 'loop thread completes the parent\'s pending unregistration while another thread is inside register() (outside the sequential histories C07 quantifies over)'),
+ 'C08-5': ('generate_events arming drops the `not self._running` term', 'foreign-thread stop() whose `stopped` is dispatched before the generate_events of the same batch is prepared'),
+ 'C08-6': ('_exit() remembers the code only if truthy', 'stop(0) / SystemExit(0) / other falsy codes from a handler'),
+ 'C09-5': ('datetime deadline converted with timedelta.seconds', 'Timer with a datetime whose sub-second part is below now\'s, more than a day away, or in the past'),
+ 'C09-6': ('Timer._on_generate_events returns early when time_left == 0', 'timer due in an iteration in which the event queue is not empty when generate_events is dispatched'),
  'C18-2': ('_check_args rewritten with regexes using $ (matches before a trailing newline)', 'command / prefix / argument ending in a single LF'),
 }
 rows = []
@@ -83,6 +101,13 @@ for sid in sorted(os.listdir(os.path.join(V, 'seeded'))):
     m = json.load(open(mp))
     if sid in T:
         m['summary'], m['needs'] = T[sid]
+    CB = {'C04-6': 'C06', 'C06-6': 'C04'}   # decided by a neighbouring property's check (the clause broken is that check's oracle)
+    if sid in CB:
+        m['caught_by_property'] = CB[sid]
+        m['caught_by'] = CB[sid] + ' quick'
+    if sid in ('C07-5', 'C07-6'):
+        m['expect'] = 'missed'
+        m['caught_by'] = 'not decided: needs a second thread inside register(); C07 quantifies over sequential histories'
     if sid == 'C06-3':
         # the clause it breaks (<caller>_complete only after the callee's follow-up work) is C05's oracle; C05's workload has call()/wait() shapes for it
         m['caught_by_property'] = 'C05'
